@@ -304,42 +304,58 @@ fn hexit(a: &str, hook: &str, m: u64, out: &str, v: u64) {
     emit(json!({"e": "HExit", "a": a, "hook": hook, "m": m, "out": out, "v": v}));
 }
 
-struct RunFut<'a> {
+/// Wraps the body of one on_run invocation: logs every poll of the future (RunPoll), its
+/// completion (RunEnd) and its being dropped unfinished (RunDrop: another select branch won).
+struct RunWrap<'a> {
+    inner: Pin<Box<dyn Future<Output = String> + Send + 'a>>,
     sh: &'a Shared,
     inst: u64,
     finished: bool,
 }
-impl Future for RunFut<'_> {
+impl Future for RunWrap<'_> {
     type Output = String;
     fn poll(mut self: Pin<&mut Self>, cx: &mut Context<'_>) -> Poll<String> {
         emit(json!({"e": "RunPoll", "a": self.sh.name, "inst": self.inst}));
-        let mut g = self.sh.gate.lock().unwrap();
-        match g.dir.take() {
-            Some(Dir::Out(o)) => {
-                g.parked = "";
-                drop(g);
+        match self.inner.as_mut().poll(cx) {
+            Poll::Ready(o) => {
                 self.finished = true;
                 emit(json!({"e": "RunEnd", "a": self.sh.name, "inst": self.inst, "out": o}));
                 Poll::Ready(o)
             }
-            other => {
-                g.dir = other; // a nested directive is not meaningful for on_run: leave it
-                g.waker = Some(cx.waker().clone());
-                g.parked = "Run";
-                Poll::Pending
+            Poll::Pending => Poll::Pending,
+        }
+    }
+}
+impl Drop for RunWrap<'_> {
+    fn drop(&mut self) {
+        if !self.finished {
+            {
+                let mut g = self.sh.gate.lock().unwrap_or_else(|e| e.into_inner());
+                if g.parked == "Run" {
+                    g.parked = "";
+                }
+            }
+            // drop the body first so that a nested operation it awaits is cancelled before the event
+            self.inner = Box::pin(async { String::new() });
+            // (a future dropped while its own task unwinds from a panic is not a lost select race)
+            if !std::thread::panicking() {
+                emit(json!({"e": "RunDrop", "a": self.sh.name, "inst": self.inst}));
             }
         }
     }
 }
-impl Drop for RunFut<'_> {
-    fn drop(&mut self) {
-        if !self.finished {
-            let mut g = self.sh.gate.lock().unwrap_or_else(|e| e.into_inner());
-            if g.parked == "Run" {
-                g.parked = "";
-            }
-            drop(g);
-            emit(json!({"e": "RunDrop", "a": self.sh.name, "inst": self.inst}));
+
+/// body of on_run: like any hook it waits on the gate and performs the operations it is told to
+async fn run_body(sh: &Shared) -> String {
+    loop {
+        match GateFut(sh, "Run").await {
+            Dir::Out(o) => return o,
+            Dir::Nest { kind, h, d } => match Instr::new(&sh.name, &kind, h, d) {
+                Some(op) => {
+                    let _ = op.await;
+                }
+                None => emit(json!({"e": "Inapplicable", "a": sh.name, "what": "nest"})),
+            },
         }
     }
 }
@@ -361,7 +377,7 @@ impl Actor for S {
 
     async fn on_run(&mut self, _w: &ActorWeak<Self>) -> Result<bool, ErrTok> {
         self.inst += 1;
-        let out = RunFut { sh: &self.sh, inst: self.inst, finished: false }.await;
+        let out = RunWrap { inner: Box::pin(run_body(&self.sh)), sh: &self.sh, inst: self.inst, finished: false }.await;
         match out.as_str() {
             "true" => {
                 self.jl.push("run".into());
